@@ -69,7 +69,11 @@ def find_model(formulas, consts_in_domain, h0, N=7, timeout_ms=30000):
     for c in consts_in_domain:
         s.add(c >= 0, c < N)
     r = s.check()
+    find_model.last_status = str(r)          # 'unsat' = no model in the finite domain; 'unknown' = timeout (decides nothing)
     return s.model() if r == z3.sat else None
+
+
+find_model.last_status = None
 
 
 def _val(m, t):
